@@ -8,7 +8,7 @@ RULE = ("MC: on the real extracted layouts TLC checks that every list at capacit
         "0..=capacity a message with n distinct elements (taken from decoded generated frames) is built and decoded: build ok, frame <= 1029 bytes, count "
         "field on the wire (position from Layouts) = n, decode returns n elements with the same digests in the same order; hostile frames: the full-length "
         "frame with its count field set to every value above capacity, and cut after every byte (re-framed): must decode to Corrupt whenever the count "
-        "exceeds the capacity or the body is shorter than the count implies; non-trivial = all; distinct = distinct (type, list, n) and hostile frames")
+        "exceeds the capacity or the body is shorter than the count implies; frames with arbitrary element bits (zeros, ones, random) under an admissible count must decode to a typed message with exactly that many elements; both build profiles; non-trivial = all; distinct = distinct (type, list, n) and hostile frames")
 
 
 def sig(ev, d):
@@ -26,6 +26,11 @@ def run(chk):
     r = tv("Trace_Lists", "Trace_Lists.cfg", t, shards=12, tag="C15")
     chk.add_tv("lists", r)
     report_rejects(chk, r, sig, lambda ev, d: "list %s of message %s: count / capacity / order violated (%s)" % (ev.get("path"), ev.get("number"), ev["ev"]))
+    t2 = record("lists", chk.path("lists-relchk.ndjson"), profile="relchk", seed=chk.seed + 3, layouts=os.path.join(WORK, "gen", "layouts.json"), timeout=3000)
+    r2 = tv("Trace_Lists", "Trace_Lists.cfg", t2, shards=12, tag="C15-relchk")
+    chk.add_tv("lists[relchk]", r2)
+    report_rejects(chk, r2, lambda ev, d: "[overflow-checks] " + sig(ev, d),
+                   lambda ev, d: "[overflow-checks] list %s of message %s: count / capacity / order violated (%s)" % (ev.get("path"), ev.get("number"), ev["ev"]))
     lists = set()
     full = 0
     for ln, o in r["lines"]:
